@@ -732,6 +732,38 @@ fn f_mut(report: &Report, config: Config, pairs: bool) {
     fam.finish(total, &format!("corpus={} templates, edits=delete/duplicate/transpose/replace-by-{}-specials", corpus.len(), SPECIALS.len()));
 }
 
+// ------------------------------------------------------------------ F_line (error reporting path)
+
+/// Invalid markup preceded, on the same line, by multi-byte text, quotes and valid
+/// markup: the error path re-parses from the start of the offending line, which
+/// mixes character columns and byte offsets.
+fn f_line(report: &Report, config: Config, k: u32) {
+    let pre = ["é", "👍", "日本", "'", "\"", "{{ 'éé' }}", "{{ \"日\" }}", "x", " ", "\n", "{% assign v = 'é' %}", "}}"];
+    let bad = ["{{ ' }}", "{{ \" }}", "{{ x", "{% if", "{{ | }}", "{{ !! }}", "{% assign = %}{{", "{{ 'é", "{{ 名 }}"];
+    let suf = ["", "'", "\"", " }}", "é' }}"];
+    let np = seq_count(pre.len() as u64, k);
+    let total = np * bad.len() as u64 * suf.len() as u64;
+    let parser = cfgs::parser(config);
+    let fam = Fam::new(report, format!("F_line/{}/prefix<={}", config.name(), k));
+    let build = |i: u64| -> String {
+        let d = crate::run::decode(i, &[np, bad.len() as u64, suf.len() as u64]);
+        let p: String = seq_decode(d[0], pre.len() as u64, k).iter().map(|t| pre[*t as usize]).collect();
+        format!("{p}{}{}", bad[d[1] as usize], suf[d[2] as usize])
+    };
+    par_range(
+        report,
+        &fam.name,
+        total,
+        |i| {
+            let text = build(i);
+            check_one(&fam, &parser, config, i, &text, Claim::NoClaim);
+        },
+        |i| json!({"kind":"parse","config":config.name(),"text":build(i)}),
+    );
+    report.sample(json!({"family": fam.name, "text": build(total / 2 + 5)}));
+    fam.finish(total, "multi-byte / quoted / valid-markup prefixes x invalid markup x suffixes on one line");
+}
+
 // ------------------------------------------------------------------ big literal
 
 fn f_bigint(report: &Report) {
@@ -792,6 +824,7 @@ pub fn run(tier: Tier) -> i32 {
         f_nest(&report, config);
         f_mut(&report, config, false);
     }
+    f_line(&report, Config::Stdlib, if t { 5 } else { 4 });
     f_arity(&report);
     f_bigint(&report);
     f_struct(&report, Config::Stdlib, if t { 6 } else { 4 });
